@@ -223,6 +223,23 @@ def run_case(ctx, case):
     base = sub / f"{stem}{ctx.evaluations}"
     fbil = str(base) + ".bil"
     fhdr = str(base) + ".hdr"
+    if int(case["seed"]) % 6 == 4:
+        # a bare file name, relative to the working directory
+        ctx.tag("filename:bare-name-in-working-directory")
+        cwd_ = os.getcwd()
+        try:
+            os.chdir(str(sub))
+            ctx.api("Grid.save")
+            gr.save("bare_" + os.path.basename(fbil))
+            gbare = g.Grid.from_header("bare_" + os.path.basename(fhdr))
+            ctx.check("load.cells", np.dtype(gbare.dtype) == dt and
+                      cells_equal(gbare.data, stored), f"save-load|bare-file-name|{tagk}",
+                      case, None)
+        except Exception as e:
+            ctx.check("load.runs", False, "save-load|bare-file-name|raises", case,
+                      {"exc": repr(e)[:200]})
+        finally:
+            os.chdir(cwd_)
     try:
         ctx.api("Grid.save")
         gr.save(fbil)
@@ -445,6 +462,19 @@ def run_case(ctx, case):
     if nrows * ncols >= 2:
         ctx.tag("clip")
         ctx.api("Grid.clip")
+        if int(case["seed"]) % 3 == 2 and dt.kind in "fi" and hasattr(type(gr), "mindata"):
+            # the parent declares an admissible range while holding cells outside it
+            # (flags written cell by cell): a clip copies cells, it does not judge them
+            try:
+                fin_ = stored[np.isfinite(stored.astype(float))] if dt.kind == "f" \
+                    else stored.ravel()
+                if len(fin_):
+                    mid_ = np.sort(fin_.ravel())[len(fin_.ravel()) // 2]
+                    gr.mindata = float(mid_) if dt.kind == "f" else int(mid_)
+                    gr.data[...] = stored          # (in place: the setter would clip)
+                    ctx.tag("clip:parent-with-cells-outside-its-declared-range")
+            except Exception:
+                pass
         r0, r1 = sorted(rng.integers(0, nrows, size=2))
         c0, c1 = sorted(rng.integers(0, ncols, size=2))
         csz = float(gr.cellsize)
